@@ -5,11 +5,20 @@ P = dict(
     memcheck_stride=dict(quick=20, thorough=20),
     post='reports',
     level='exploration',
-    technique='runtime monitoring: generated runs executed by the real registry/runner, byte stream captured at printBuffer / the PlatformSpecificFPuts seam, decoded offline by an independent TeamCity tokenizer and pairing automaton and compared with the ground truth; ASan/UBSan build',
-    rule='case = one generated run (1..5 groups x 1..6 tests, pass / 1-2 failures / ignored; failures inside the test, in a helper above it, or in another file; names, paths and messages over printable ASCII weighted to \' | [ ] and line breaks plus escape look-alikes such as |n, \'] and "\' x=\'"), '
+    technique='runtime monitoring: generated runs executed by the real registry/runner (unfiltered, filtered, and with every test in a real forked child), byte stream captured at printBuffer / the PlatformSpecificFPuts seam, decoded offline by an independent TeamCity tokenizer and pairing automaton and compared with the ground truth; ASan/UBSan build',
+    rule='case = one generated run (1..5 groups x 1..6 tests, pass / 1-2 failures / ignored; failures inside the test, in a helper above it, or in another file; names, paths and messages over printable ASCII weighted to \' | [ ] and line breaks plus escape look-alikes such as |n, \'] and "\' x=\'"; '
+         'the empty string is a boundary value of group names (6 %, at most one per run), test names (4 %) and failure texts), '
          '65% through TestRegistry::runAllTests with a capturing TeamCityTestOutput, 35% through CommandLineTestRunner -oteamcity [-v] [-r2]. '
+         '25 % of the runs carry one or two group/name filters of every kind (substring/strict, selecting/excluding): judged for balance, for the selected tests\' events and for "each test sits in a suite of its own group". '
+         '8 % of the runs (3 % in the thorough tier) execute every test in a forked child (registry flag or -p; children pass, fail checks, _exit(n) or are killed by a signal): the parent\'s stream must carry one testFailed, named after the open test, for each test whose child failed. '
          'Non-trivial = run with a TeamCity special character in some name/path/message AND a failure outside the test file; distinct by the (group, test, outcome) sequence',
     floor=dict(quick=500, thorough=10000),
-    counter_floor=dict(quick=dict(teamcity_messages_decoded=20000, teamcity_failures_checked=2000), thorough=dict(teamcity_messages_decoded=400000)),
-    assumptions=['non-empty group and test names (an empty group name cannot be written with TEST_GROUP and is used by the output as "no group open")', 'printable ASCII plus CR/LF only; generated text never contains "#"', 'free console text between service messages is ignored'],
+    counter_floor=dict(quick=dict(teamcity_messages_decoded=20000, teamcity_failures_checked=2000, runs_filtered=400, teamcity_runs_with_an_empty_group_name=150, tests_with_empty_name=400,
+                                  runs_in_separate_processes=80, teamcity_parent_side_failures_checked=400, children_killed_by_signal=80, children_exit_nonzero=60),
+                       thorough=dict(teamcity_messages_decoded=400000, runs_filtered=8000, teamcity_runs_with_an_empty_group_name=3000, tests_with_empty_name=8000,
+                                     runs_in_separate_processes=1000, teamcity_parent_side_failures_checked=5000, children_killed_by_signal=1000, children_exit_nonzero=800)),
+    assumptions=['printable ASCII plus CR/LF only; generated text never contains "#"', 'free console text between service messages is ignored',
+                 'a suite named \'\' that gets no testSuiteFinished is reported under the key teamcity:suite-not-finished:empty-group-name (the output object used the empty group name as its "no group open" marker) and the missing finish is supplied, so that the rest of the run is judged for everything else',
+                 'filtered runs: whether a wholly filtered-out group emits an empty suite is not judged',
+                 'separate-process runs: only the parent\'s stream is judged (the child writes to its own copy of the output object); wording and location of the parent-side failure are not judged (C11), its name and position are'],
 )
